@@ -31,7 +31,7 @@ from coba.environments import filters as ef
 from coba.pipes import Pipes
 from coba.exceptions import CobaExit, CobaException
 
-from vf.lib.c04_pipelines import (defaults_changed, defaults_restore, tiny_env, SRC_LIN, SRC_ACT, LIN_PAIRS, Built, SHORTCUTS, DUO_PAIRS, DUO_PAIRS_MORE, duo_compatible, apply_shortcut, SOURCES, SRC_BIG, FILTERS, FILTERS_ONE, FILTERS_STATEFUL, build_source, make_filter, compatible,
+from vf.lib.c04_pipelines import (defaults_changed, defaults_restore, tiny_env, SRC_LIN, SRC_ACT, SRC_CAT, CAT_PAIRS, LIN_PAIRS, Built, SHORTCUTS, DUO_PAIRS, DUO_PAIRS_MORE, duo_compatible, apply_shortcut, SOURCES, SRC_BIG, FILTERS, FILTERS_ONE, FILTERS_STATEFUL, build_source, make_filter, compatible,
                                   cinter, cparams, flavour, snapshot, src_mem)
 
 warnings.simplefilter('ignore')
@@ -48,6 +48,7 @@ A_BIG_RAW = ['full', 'p1', 'p30', 'pickle']
 A_HUGE = ['full', 'p1', 'save']                              # the 1001-interaction source (save writes batches of 1000)
 PARTS = {'p1': 1, 'p3': 3, 'p30': 30}
 A_PAIR = ['full@0', 'full@1', 'params@0', 'params@1']      # two environments, full reads and params interleaved
+A_PAIRP = ['full@0', 'full@1', 'pickle@0', 'pickle@1']      # two environments, each may be replaced by its unpickled copy
 A_FAN = ['full@0', 'full@1', 'p1@0', 'p1@1', 'params@0', 'params@1']
 READS = {'full', 'p1', 'p3', 'p30', 'mat', 'save'}           # operations that pull interactions through the pipeline
 KIND = {'p1': 'part', 'p3': 'part', 'p30': 'part'}                   # op -> kind used in finding keys
@@ -146,7 +147,9 @@ class C04(Check):
             'slice, scale, impute, sparse, dense, repr, noise, batch, logged, grounded, params, ... and five two-step combinations with cache/chunk) each '
             'applied once to the collection: all histories <=3 | <=4 over {full,p1,params} x {member 0,1}, every member compared with a fresh twin of that '
             'member alone; action counts: sources with exactly 1 and exactly 2 one-hot actions and two-class nominal labels (3 and more: the other sources), bare '
-            '(complete alphabet <=3 | <=4) and behind each of the 25 filter classes (as for source x 1 filter); parameter objects: 9 LinearSynthetic variants (no context / no action features, reward_features defaulted or caller-passed, direct and '
+            '(complete alphabet <=3 | <=4) and behind each of the 25 filter classes (as for source x 1 filter); order-only state: 3 sources whose nominal features have one level set declared in two orders ({u,v} and {v,u}; Categoricals carried by the '
+            'pickle of SupervisedSimulation(X,Y) / a pickled LambdaSimulation / ARFF rows), bare and behind each filter class as above, and 3 pairs of such environments '
+            'in one Environments object x {plain, cache()}: all histories <=3 | <=4 over {full, pickle round trip of the member} x {member 0,1}; parameter objects: 9 LinearSynthetic variants (no context / no action features, reward_features defaulted or caller-passed, direct and '
             'through Environments.from_linear_synthetic) alone (all histories <=2 | <=3) and as the first of two environments in one Environments object next to an '
             'ordinary default-argument environment (13 pairs x {plain, cache()}: all histories <=3 | <=4 over {full,params} x {member 0,1}); after EVERY step of EVERY '
             'history all list/dict/set default-argument objects of coba\'s environment/pipe code must hold what they held at import; save files: one collection '
@@ -232,6 +235,17 @@ class C04(Check):
                 yield {'src': s, 'chain': [], 'facade': facade}, self.plans(facade, d1, deep=False)
                 for f in FILTERS_ONE:
                     if compatible(s, [f]): yield {'src': s, 'chain': [f], 'facade': facade}, self.plans(facade, d1)
+        # state that differs only in ORDER behind __reduce__/__setstate__: nominal features with one level set declared in two orders, in one
+        # environment whose pickle carries the values, and in two environments of one collection that are unpickled in every order
+        for facade in (False, True):
+            for s in SRC_CAT:
+                yield {'src': s, 'chain': [], 'facade': facade}, self.plans(facade, d1, deep=False)
+                if s != 'arffcc':
+                    for f in FILTERS_ONE:
+                        if compatible(s, [f]): yield {'src': s, 'chain': [f], 'facade': facade}, self.plans(facade, d1)
+        for a, b in CAT_PAIRS:
+            for sc in ('none', 'cache'):
+                yield {'src': a, 'src2': b, 'short': sc, 'duo': True, 'chain': [], 'facade': True}, [(A_PAIRP, d1, None)]
         # caller-owned / defaulted parameter objects: linear synthetic environments without context / action features, reward_features
         # defaulted or passed by the caller; alone, and next to an ordinary environment that relies on the default arguments
         for s in SRC_LIN:
@@ -387,9 +401,12 @@ class C04(Check):
                 new = pickle.loads(pickle.dumps(env))
             except ERRORS as e:    # noqa   accepted rejection
                 return 'pickle_rejected:' + type(e).__name__
-            st.env = new
-            if st.facade:
-                st.envs = Environments(new); st.env = st.envs[0]
+            if st.sibs:                    # member j of a collection is replaced by its unpickled copy
+                st.sibs[j] = Environments(new)[0]
+            else:
+                st.env = new
+                if st.facade:
+                    st.envs = Environments(new); st.env = st.envs[0]
         elif base in ('mat', 'cache', 'chunk', 'save'):
             try:
                 if base == 'mat': envs = st.envs.materialize()
